@@ -54,6 +54,14 @@ package proxy
 //                               cannot have opened the breaker yet
 //   C10.cb-admitted-while-open  request admitted although "one record per client request" has opened
 //                               the breaker (waitDurationInOpenState is 24 h in every scenario)
+//   C10.attempt-request-altered an attempt (first or repeated) reached the transport with another method or other
+//                               body bytes than the client's request ("a retry policy configures how to retry a
+//                               failed request": the request, not a part of it)
+//   C10.spurious-cancel.stream-body  stream response (serverMaxBodySize -1): the last attempt answered, handle returned
+//                               that answer's status and result, the client did not cancel and no simulated time
+//                               has passed, yet reading the response stream fails with "context canceled": the pool
+//                               cancelled the context of the backend call itself. (Any other incomplete stream of a
+//                               complete backend body is C10.final-outcome.)
 //   C10.panic                   a panic escaped ServerPool.handle
 //   C10.other                   unknown request at the transport, missing response, a shortCircuited result
 //                               without 503 / with a transport call (that rule belongs to C08: sub-harness
@@ -77,15 +85,37 @@ package proxy
 //     context says at the instant the stub returns decides the expected classification.
 //   * backOffPolicy is only generated as omitted / "random" / "exponential" (the values the
 //     schema accepts); maxAttempts >= 1; randomizationFactor in [0,1].
-//   * breaker: COUNT_BASED, slow-call threshold 24 h, waitDurationInOpenState 24 h, min calls <=
-//     window size. With one client task the prediction is exact; with several tasks only bounds
-//     are asserted (enough failed requests must exist to explain an open breaker; once a
-//     short-circuit has been observed every later request must be short-circuited).
+//   * breaker: COUNT_BASED (given or by the documented default) or TIME_BASED, slow-call threshold
+//     24 h, waitDurationInOpenState 24 h; failureRateThreshold, slidingWindowType,
+//     slowCallRateThreshold and permittedNumberOfCallsInHalfOpenState may be omitted (documented
+//     defaults 50 / COUNT_BASED / 100 / 10); minimumNumberOfCalls is always given (documentation says
+//     default 10, DefaultPolicy says 100). With one client task the prediction is exact for
+//     COUNT_BASED; for TIME_BASED ("the requests of the last N seconds") an earlier outcome counts
+//     for certain when it is at most N-1 s older than the new one, is gone for certain when at least
+//     N+1 s older, and may or may not count in between (whole-second buckets or exact age): the
+//     reference computes "may be open" / "must be open" and lets an allowed observation settle it.
+//     With several tasks only bounds are asserted (enough failed requests must exist to explain an
+//     open breaker; once a short-circuit has been observed every later request must be
+//     short-circuited).
 //   * an attempt whose body cannot be read has failed: a failure result and a 5xx status are
 //     required (408/timeout also accepted when the pool time-out expired inside the body, any
 //     4xx/5xx after a client cancel); which failure result is not prescribed. A stalled body
 //     without a pool time-out is only generated together with a client cancel.
-//   * a retried buffered request must carry its body again: not asserted (statement silent).
+//   * stream response: the stub's body can be read only while the context of the backend request is
+//     alive (the net/http contract: "the context controls the entire lifetime of a request and its
+//     response: ... reading the response headers and body"); the client copies the stream right after
+//     handle returned (as mux.serveHTTP does) and then finishes the context. A stream may be cut (any
+//     prefix accepted) when the backend itself cut or stalled its body, when the client had cancelled,
+//     or when the pool time-out has elapsed since the earliest possible start of the last attempt
+//     (whether the time-out still governs the stream after the head is not stated). A backend body that
+//     fails is not an attempt failure in stream mode (the pool cannot know): outcome by status.
+//   * an attempt for which the load balancer has no server ("noserver", as after a service-discovery
+//     update listing none) is a failed attempt without transport call: counts towards maxAttempts, must
+//     be followed by the back-off, and as last attempt must give a failure result with a 5xx status
+//     (which result is not documented).
+//   * serverMaxBodySize on the Proxy is the documented fallback of the pool option: same expectations.
+//   * methods POST/PUT/PATCH/GET/DELETE (GET/DELETE without body); retries do not depend on the method
+//     (neither statement nor documentation make them).
 
 import (
 	stdcontext "context"
@@ -121,13 +151,28 @@ type c10Retry struct {
 
 type c10CB struct {
 	On       bool `json:"on"`
-	FailPct  int  `json:"fail_pct"`
-	Window   int  `json:"window"`
+	FailPct  int  `json:"fail_pct"` // 0: failureRateThreshold omitted (documented default 50)
+	Window   int  `json:"window"`   // calls (COUNT_BASED) or seconds (TIME_BASED)
 	MinCalls int  `json:"min_calls"`
+	// slidingWindowType: "" (omitted: documented default COUNT_BASED) | COUNT_BASED | TIME_BASED
+	Type string `json:"type"`
+	// slowCallRateThreshold (documented default 100) and permittedNumberOfCallsInHalfOpenState
+	// (documented default 10, irrelevant with a 24 h open wait) omitted
+	OmitRest bool `json:"omit_rest"`
 }
 
+// failPct is the effective failureRateThreshold.
+func (c c10CB) failPct() int {
+	if c.FailPct == 0 {
+		return 50
+	}
+	return c.FailPct
+}
+
+func (c c10CB) timeBased() bool { return c.Type == "TIME_BASED" }
+
 type c10Attempt struct {
-	Kind   string `json:"kind"` // resp | neterr | hang | bodyfail | bodyhang | toolarge | toolarge-unknown
+	Kind   string `json:"kind"` // resp | neterr | hang | bodyfail | bodyhang | toolarge | toolarge-unknown | noserver
 	Status int    `json:"status"`
 	LatUs  int64  `json:"lat_us"`
 	BodyK  int    `json:"body_k"` // bodyfail/bodyhang: bytes of the declared body delivered before the read fails / blocks
@@ -135,6 +180,7 @@ type c10Attempt struct {
 
 type c10Op struct {
 	GapUs    int64        `json:"gap_us"`
+	Method   string       `json:"method"` // "": POST
 	Stream   bool         `json:"stream"`
 	BodyLen  int          `json:"body_len"`
 	CancelUs int64        `json:"cancel_us"` // < 0: the client never cancels
@@ -151,8 +197,10 @@ type c10Scenario struct {
 	TimeoutUs    int64       `json:"timeout_us"`
 	FailureCodes []int       `json:"failure_codes"`
 	Clients      []c10Client `json:"clients"`
-	MaxBody      int64       `json:"max_body"` // pool serverMaxBodySize; 0: omitted (default)
-	Net          bool        `json:"net"`      // variant: real http.Transport over simnet against a scripted backend server
+	MaxBody      int64       `json:"max_body"`       // pool serverMaxBodySize; 0: omitted (default); -1: the response is a stream
+	MaxBodyProxy bool        `json:"max_body_proxy"` // max_body is configured on the Proxy (fallback of the pool option), not on the pool
+	RespPadK     int         `json:"resp_pad_k"`     // net variant, stream responses: KiB of padding behind the answer's tag
+	Net          bool        `json:"net"`            // variant: real http.Transport over simnet against a scripted backend server
 }
 
 func c10InCodes(codes []int, s int) bool {
@@ -196,7 +244,7 @@ func c10Gen(rng *sim.Rand, tier string) interface{} {
 	}
 	T := sc.TimeoutUs
 	okStatuses := []int{}
-	for _, s := range []int{200, 201, 404, 500} {
+	for _, s := range []int{200, 201, 404, 500, 503} { // a 5xx that is no failure code is an ordinary answer
 		if !c10InCodes(sc.FailureCodes, s) {
 			okStatuses = append(okStatuses, s)
 		}
@@ -206,6 +254,15 @@ func c10Gen(rng *sim.Rand, tier string) interface{} {
 	if rng.Bool(0.2) {
 		sc.MaxBody = 64
 	}
+	// response taken as a stream (serverMaxBodySize -1): the pool hands the backend's body
+	// to the client unread
+	streamResp := rng.Bool(0.18)
+	if streamResp {
+		sc.MaxBody = -1
+		sc.RespPadK = rng.Pick(0, 0, 6, 40)
+	}
+	// the limit / stream switch configured on the Proxy instead of the pool
+	sc.MaxBodyProxy = rng.Bool(0.3)
 	switch os.Getenv("C10_ONLY") { // development knob: restrict the search to one variant
 	case "net":
 		sc.Net = true
@@ -224,10 +281,17 @@ func c10Gen(rng *sim.Rand, tier string) interface{} {
 		if rng.Bool(0.6) {
 			nClients = 1
 		}
-		sc.CB.FailPct = rng.Pick(1, 34, 50, 51, 67, 100, 100)
+		sc.CB.FailPct = rng.Pick(1, 34, 50, 51, 67, 100, 100, 0)
+		sc.CB.Type = rng.PickStr("", "COUNT_BASED", "COUNT_BASED", "TIME_BASED", "TIME_BASED")
+		sc.CB.OmitRest = rng.Bool(0.4)
 		if nClients == 1 {
 			sc.CB.Window = rng.Range(1, 8)
 			sc.CB.MinCalls = rng.Range(1, sc.CB.Window)
+			if sc.CB.timeBased() {
+				// the calls of the last N seconds: N against the gaps between the requests below
+				sc.CB.Window = rng.Pick(1, 2, 3, 5, 10, 30)
+				sc.CB.MinCalls = rng.Range(1, 5)
+			}
 		} else {
 			sc.CB.Window = 100
 			sc.CB.MinCalls = rng.Range(1, 6)
@@ -250,12 +314,19 @@ func c10Gen(rng *sim.Rand, tier string) interface{} {
 		if !dense {
 			op.GapUs = int64(rng.Pick(0, 0, 1, 1000, 10000, int(effWaitUs), 1000000))
 		}
+		if sc.CB.On && sc.CB.timeBased() && rng.Bool(0.6) {
+			op.GapUs = int64(rng.Pick(0, 1000, 500000, 1000000, 2500000, 6000000, 12000000, 40000000))
+		}
 		op.BodyLen = rng.Pick(0, 5, 5, 100)
+		op.Method = rng.PickStr("", "", "POST", "PUT", "PATCH", "GET", "DELETE")
 		if rng.Intn(100) < streamPct {
 			op.Stream = true
 			if op.BodyLen == 0 {
 				op.BodyLen = 7
 			}
+		}
+		if op.Method == "GET" || op.Method == "DELETE" {
+			op.BodyLen = 0 // behind a server in stream mode even a body-less request is a stream request
 		}
 		willCancel := rng.Intn(100) < cancelPct
 		pf := scenPf
@@ -288,16 +359,25 @@ func c10Gen(rng *sim.Rand, tier string) interface{} {
 						at.Kind = "bodyhang"
 					case y < 8:
 						at.Kind = "toolarge"
-						sc.MaxBody = 64
 					case y < 9:
 						at.Kind = "toolarge-unknown"
-						sc.MaxBody = 64
 					default:
 						at.Kind = "bodyfail"
+					}
+					if at.Kind == "toolarge" || at.Kind == "toolarge-unknown" {
+						if streamResp {
+							at.Kind = "bodyfail" // no limit in stream mode
+						} else {
+							sc.MaxBody = 64
+						}
 					}
 				case x < 30 && len(sc.FailureCodes) > 0:
 					at.Status = sc.FailureCodes[rng.Intn(len(sc.FailureCodes))]
 					at.LatUs = fastLat()
+				case x >= 30 && x < 36 && !sc.Net:
+					// the load balancer has no server to offer (service discovery lists none at
+					// this moment): the attempt fails before any backend call
+					at.Kind = "noserver"
 				case x < 55 || (T == 0 && !willCancel):
 					at.Kind = "neterr"
 					at.LatUs = fastLat()
@@ -369,32 +449,106 @@ func (m *c10Ref) maxWait(i int) time.Duration {
 	return time.Duration(base*(1+m.rf)) + time.Microsecond
 }
 
-// c10Breaker: COUNT_BASED window of the last `window` outcomes; opens when at
-// least minCalls outcomes are recorded and failures*100 >= failPct*recorded;
-// stays open (waitDurationInOpenState is 24 h).
-type c10Breaker struct {
-	window, minCalls, failPct int
-	res                       []bool
-	open                      bool
+// c10Breaker: window of the last `window` outcomes (COUNT_BASED) or of the outcomes of the
+// last `window` seconds (TIME_BASED); after an outcome is recorded it opens when at least
+// minCalls outcomes are in the window and failures*100 >= failPct*outcomes; stays open
+// (waitDurationInOpenState is 24 h). One client task: outcomes are recorded one after another.
+//
+// TIME_BASED: the harness only knows an interval [lo, hi] for the instant of each record, and
+// "the last N seconds" may be counted in whole seconds: an older outcome is certainly in the
+// window when it is at most N-1 s old, certainly out when at least N+1 s old, otherwise either.
+// The model therefore yields "may be open" / "must be open"; an observed admission or
+// short-circuit that is allowed settles the state.
+type c10Rec struct {
+	failed bool
+	lo, hi time.Duration
 }
 
-func (b *c10Breaker) record(failed bool) {
+type c10Breaker struct {
+	timeBased                 bool
+	window, minCalls, failPct int
+	res                       []c10Rec
+	open                      bool // certainly open
+	mayOpen                   bool // possibly open
+	ambiguous, evicted        bool
+}
+
+func (b *c10Breaker) trips(total, failures int) bool {
+	return total >= b.minCalls && failures*100 >= b.failPct*total
+}
+
+func (b *c10Breaker) record(failed bool, lo, hi time.Duration) {
 	if b.open {
 		return
 	}
-	b.res = append(b.res, failed)
-	if len(b.res) > b.window {
-		b.res = b.res[len(b.res)-b.window:]
+	rec := c10Rec{failed, lo, hi}
+	if !b.timeBased {
+		b.res = append(b.res, rec)
+		if len(b.res) > b.window {
+			b.res = b.res[len(b.res)-b.window:]
+		}
+		f := 0
+		for _, x := range b.res {
+			if x.failed {
+				f++
+			}
+		}
+		b.open = b.trips(len(b.res), f)
+		b.mayOpen = b.open
+		return
 	}
-	f := 0
-	for _, x := range b.res {
-		if x {
-			f++
+	w := time.Duration(b.window) * time.Second
+	total, failures := 1, 0
+	if failed {
+		failures = 1
+	}
+	var keep, amb []c10Rec
+	for _, q := range b.res {
+		switch {
+		case lo-q.hi >= w+time.Second:
+			b.evicted = true // certainly out, now and later
+		case hi-q.lo <= w-time.Second:
+			keep = append(keep, q)
+			total++
+			if q.failed {
+				failures++
+			}
+		default:
+			keep = append(keep, q)
+			amb = append(amb, q)
 		}
 	}
-	if len(b.res) >= b.minCalls && f*100 >= b.failPct*len(b.res) {
-		b.open = true
+	b.res = append(keep, rec)
+	if len(amb) > 12 {
+		b.open, b.mayOpen, b.ambiguous = false, true, true
+		return
 	}
+	may, must := false, true
+	for mask := 0; mask < 1<<len(amb); mask++ {
+		t, f := total, failures
+		for i, q := range amb {
+			if mask&(1<<i) != 0 {
+				t++
+				if q.failed {
+					f++
+				}
+			}
+		}
+		if b.trips(t, f) {
+			may = true
+		} else {
+			must = false
+		}
+	}
+	b.open, b.mayOpen = must, may
+	if may != must {
+		b.ambiguous = true
+	}
+}
+
+// observe settles the state by what was observed (after the caller has checked it).
+func (b *c10Breaker) observe(short bool) {
+	b.open, b.mayOpen = short, short
 }
 
 // ---- executor -------------------------------------------------------------------
@@ -410,7 +564,7 @@ func c10Build(r *sim.Run, sc *c10Scenario) (*c10Ref, map[string]resilience.Polic
 	if sc.TimeoutUs > 0 {
 		spec.Timeout = fmt.Sprintf("%dus", sc.TimeoutUs)
 	}
-	if sc.MaxBody > 0 {
+	if sc.MaxBody != 0 && !sc.MaxBodyProxy {
 		spec.ServerMaxBodySize = sc.MaxBody
 	}
 	if rt.On {
@@ -451,10 +605,21 @@ func c10Build(r *sim.Run, sc *c10Scenario) (*c10Ref, map[string]resilience.Polic
 		spec.RetryPolicy = "c10retry"
 	}
 	if cb.On {
-		raw := map[string]interface{}{"kind": "CircuitBreaker", "name": "c10cb", "slidingWindowType": "COUNT_BASED",
-			"failureRateThreshold": cb.FailPct, "slowCallRateThreshold": 100, "slidingWindowSize": cb.Window,
-			"minimumNumberOfCalls": cb.MinCalls, "permittedNumberOfCallsInHalfOpenState": 1,
-			"slowCallDurationThreshold": "24h", "waitDurationInOpenState": "24h"}
+		raw := map[string]interface{}{"kind": "CircuitBreaker", "name": "c10cb", "slidingWindowSize": cb.Window,
+			"minimumNumberOfCalls": cb.MinCalls, "slowCallDurationThreshold": "24h", "waitDurationInOpenState": "24h"}
+		if cb.Type != "" {
+			raw["slidingWindowType"] = cb.Type
+		}
+		if cb.FailPct > 0 {
+			raw["failureRateThreshold"] = cb.FailPct
+		}
+		if !cb.OmitRest {
+			raw["slowCallRateThreshold"] = 100
+			raw["permittedNumberOfCallsInHalfOpenState"] = 1
+		}
+		if cb.Type == "" || cb.FailPct == 0 || cb.OmitRest {
+			r.Probe("c10.cb.documented_defaults_used")
+		}
 		p, err := resilience.NewPolicy(raw)
 		if err != nil {
 			r.Violate("C10.other", "circuit breaker policy %v rejected: %v", raw, err)
@@ -470,6 +635,15 @@ func c10Build(r *sim.Run, sc *c10Scenario) (*c10Ref, map[string]resilience.Polic
 	return ref, policies, spec, true
 }
 
+// c10ProxyMaxBody is the Proxy-level serverMaxBodySize of the scenario (documented as the
+// fallback of the pool-level option).
+func c10ProxyMaxBody(sc *c10Scenario) int64 {
+	if sc.MaxBodyProxy {
+		return sc.MaxBody
+	}
+	return 0
+}
+
 type c10Att struct {
 	entry, end time.Duration
 	kind       string // resp | err
@@ -477,12 +651,17 @@ type c10Att struct {
 	ctxErr     string // "" | deadline | canceled
 	failed     bool
 	tag        string
-	sent       string // bodyerr: the bytes of the failed body that were delivered
+	sent       string        // bodyerr: the bytes of the failed body that were delivered
+	lower      time.Duration // earliest instant at which the pool can have started this attempt
+	cut        bool          // stream response: the backend's body ends early (after `sent`)
+	sbody      *c10StreamBody
 }
 
 type c10Req struct {
 	name        string
 	op          c10Op
+	method      string
+	wantBody    string
 	callAt      time.Duration
 	callStamp   int
 	atts        []*c10Att
@@ -492,6 +671,7 @@ type c10Req struct {
 	cancelIn    string // where the cancel landed: attempt | backoff | before
 	done        bool
 	retStamp    int
+	retAt       time.Duration
 	result      string
 	inAttempt   bool
 }
@@ -504,14 +684,19 @@ func c10Exec(r *sim.Run, sci interface{}) {
 	for _, c := range sc.Clients {
 		nOps += len(c.Ops)
 	}
-	if nOps == 0 || sc.TimeoutUs < 0 {
+	if nOps == 0 || sc.TimeoutUs < 0 || sc.MaxBody < -1 || sc.RespPadK < 0 || sc.RespPadK > 256 {
 		return
 	}
 	rt, cb := sc.Retry, sc.CB
 	if rt.On && (rt.MaxAttempts < 0 || rt.WaitMs < 0 || rt.RFPct < 0 || rt.RFPct > 100) {
 		return
 	}
-	if cb.On && (cb.Window < 1 || cb.MinCalls < 1 || cb.MinCalls > cb.Window || cb.FailPct < 1 || cb.FailPct > 100) {
+	if cb.On && (cb.Window < 1 || cb.Window > 3600 || cb.MinCalls < 1 || (cb.MinCalls > cb.Window && !cb.timeBased()) || cb.FailPct < 0 || cb.FailPct > 100) {
+		return
+	}
+	switch cb.Type {
+	case "", "COUNT_BASED", "TIME_BASED":
+	default:
 		return
 	}
 
@@ -553,25 +738,17 @@ func c10Exec(r *sim.Run, sci interface{}) {
 	var sawBodyErr, sawBodyErrLast bool
 	var sawRetrySuccess, sawExhausted, sawTimeout, sawShort, sawCancelBackoff, sawCancelAttempt, sawExp3 bool
 
-	fnSendRequest = func(hr *http.Request, _ *http.Client) (*http.Response, error) {
-		st := inflight[hr.URL.Path]
-		if st == nil {
-			r.Violate("C10.other", "transport called for unknown request %s", hr.URL.String())
-			return nil, c10ErrNet
-		}
-		// gate first: several requests may leave their back-off at the same instant
-		r.Yield("c10.transport.enter")
+	streamResp := sc.MaxBody < 0
+	var sawNoServer, sawRetriedBody, sawStreamRespOK, sawStreamRespCut, sawStreamRespRetried bool
+
+	// begin registers the start of an attempt (at the load balancer for an attempt that finds no
+	// server, at the transport otherwise) and checks the rules on when an attempt may start;
+	// it returns the earliest instant at which the pool can have started this attempt
+	begin := func(st *c10Req) (int, *c10Att, time.Duration) {
 		idx := len(st.atts)
 		att := &c10Att{entry: r.Now()}
 		st.atts = append(st.atts, att)
-		st.inAttempt = true
-		ctx := hr.Context()
-		if hr.Body != nil {
-			io.Copy(io.Discard, hr.Body)
-		}
 		note("%s.a%d enter", st.name, idx)
-
-		// earliest instant at which the pool can have started this attempt
 		lower := st.callAt
 		if idx >= 1 && !r.Violated() {
 			prev := st.atts[idx-1]
@@ -596,6 +773,34 @@ func c10Exec(r *sim.Run, sci interface{}) {
 				sawExp3 = true
 			}
 		}
+		att.lower = lower
+		return idx, att, lower
+	}
+
+	fnSendRequest = func(hr *http.Request, _ *http.Client) (*http.Response, error) {
+		st := inflight[hr.URL.Path]
+		if st == nil {
+			r.Violate("C10.other", "transport called for unknown request %s", hr.URL.String())
+			return nil, c10ErrNet
+		}
+		// gate first: several requests may leave their back-off at the same instant
+		r.Yield("c10.transport.enter")
+		idx, att, lower := begin(st)
+		st.inAttempt = true
+		ctx := hr.Context()
+		// every attempt is an attempt of the client's request: same method, same body
+		var sentBody []byte
+		if hr.Body != nil {
+			sentBody, _ = io.ReadAll(io.LimitReader(hr.Body, 1<<17))
+		}
+		if !r.Violated() && (hr.Method != st.method || string(sentBody) != st.wantBody) {
+			r.Violate("C10.attempt-request-altered", "request %s (%s, %d body bytes): attempt %d reached the transport as %s with %d body bytes %q\n%s\nhistory: %s",
+				st.name, st.method, len(st.wantBody), idx+1, hr.Method, len(sentBody), c10Clip(string(sentBody), 40), describe(), history())
+		}
+		if idx >= 1 && len(st.wantBody) > 0 {
+			sawRetriedBody = true
+		}
+
 		dl, hasDL := ctx.Deadline()
 		if ref.timeout > 0 && !r.Violated() {
 			if !hasDL {
@@ -696,9 +901,26 @@ func c10Exec(r *sim.Run, sci interface{}) {
 				status = 200
 			}
 			full := att.tag + "-" + strings.Repeat("x", 80)
-			att.kind, att.status, att.failed = "bodyerr", status, true
 			resp := &http.Response{StatusCode: status, Proto: "HTTP/1.1", ProtoMajor: 1, ProtoMinor: 1,
 				Header: http.Header{"X-C10-Attempt": []string{att.tag}}, ContentLength: int64(len(full))}
+			if streamResp {
+				// the pool does not read a stream body: the attempt's outcome is its status, the
+				// client finds out about the body
+				k := script.BodyK
+				if k < 0 {
+					k = 0
+				}
+				if k >= len(full) {
+					k = len(full) - 1
+				}
+				att.kind, att.status, att.cut, att.sent = "resp", status, true, full[:k]
+				att.failed = c10InCodes(sc.FailureCodes, status)
+				att.sbody = &c10StreamBody{r: r, ctx: ctx, data: full[:k], fail: true, hang: script.Kind == "bodyhang"}
+				resp.Body = att.sbody
+				note("%s.a%d status %d, stream body %s after %d bytes", st.name, idx, status, script.Kind, k)
+				return resp, nil
+			}
+			att.kind, att.status, att.failed = "bodyerr", status, true
 			switch script.Kind {
 			case "toolarge":
 				att.sent = full
@@ -730,22 +952,52 @@ func c10Exec(r *sim.Run, sci interface{}) {
 		att.kind, att.status = "resp", status
 		att.failed = c10InCodes(sc.FailureCodes, status)
 		note("%s.a%d status %d", st.name, idx, status)
+		var rbody io.ReadCloser = io.NopCloser(strings.NewReader(att.tag))
+		if streamResp {
+			att.sbody = &c10StreamBody{r: r, ctx: ctx, data: att.tag}
+			rbody = att.sbody
+		}
 		return &http.Response{StatusCode: status, Proto: "HTTP/1.1", ProtoMajor: 1, ProtoMinor: 1,
 			Header:        http.Header{"X-C10-Attempt": []string{att.tag}},
-			ContentLength: int64(len(att.tag)), Body: io.NopCloser(strings.NewReader(att.tag))}, nil
+			ContentLength: int64(len(att.tag)), Body: rbody}, nil
 	}
 
-	px := &Proxy{spec: &Spec{}}
+	px := &Proxy{spec: &Spec{ServerMaxBodySize: c10ProxyMaxBody(sc)}}
 	sp := NewServerPool(px, spec, "c10pool")
 	sp.InjectResiliencePolicy(policies)
+	// scripted load balancer (as after a service-discovery update): offers the pool's server,
+	// or none for an attempt scripted "noserver"
+	if len(spec.Servers) == 0 {
+		return
+	}
+	svr := spec.Servers[0]
+	var zeroPool ServerPool
+	sp.loadBalancer = zeroPool.loadBalancer
+	sp.loadBalancer.Store(LoadBalancer(&c10LB{choose: func(req *httpprot.Request) *Server {
+		st := inflight[req.Path()]
+		if st == nil || r.Violated() || r.Aborted() {
+			return svr
+		}
+		if idx := len(st.atts); idx < len(st.op.Attempts) && st.op.Attempts[idx].Kind == "noserver" {
+			r.Yield("c10.lb.noserver")
+			_, att, _ := begin(st)
+			att.kind, att.failed, att.end = "noserver", true, r.Now()
+			att.tag = fmt.Sprintf("%s-attempt-%d", st.name, idx+1)
+			note("%s.a%d no server available", st.name, idx)
+			r.Fault("no-server-available")
+			sawNoServer = true
+			return nil
+		}
+		return svr
+	}}))
 
 	exactCB := cb.On && len(sc.Clients) == 1
-	model := &c10Breaker{window: cb.Window, minCalls: cb.MinCalls, failPct: cb.FailPct}
-	shadow := &c10Breaker{window: cb.Window, minCalls: cb.MinCalls, failPct: cb.FailPct} // one record per attempt (what must NOT happen)
+	model := &c10Breaker{timeBased: cb.timeBased(), window: cb.Window, minCalls: cb.MinCalls, failPct: cb.failPct()}
+	shadow := &c10Breaker{timeBased: cb.timeBased(), window: cb.Window, minCalls: cb.MinCalls, failPct: cb.failPct()} // one record per attempt (what must NOT happen)
 	firstShortRet := 0
 	maxOpen, open := 0, 0
 
-	finish := func(st *c10Req, result string, status int, body string, hasResp bool, pnc interface{}, stack string) {
+	finish := func(st *c10Req, result string, status int, body string, rerr error, cancelledAtRead bool, readAt time.Duration, hasResp bool, pnc interface{}, stack string) {
 		n := len(st.atts)
 		note("%s return result=%q status=%d attempts=%d", st.name, result, status, n)
 		if pnc != nil {
@@ -774,19 +1026,36 @@ func c10Exec(r *sim.Run, sci interface{}) {
 		if cb.On && exactCB {
 			switch {
 			case model.open && !short:
-				r.Violate("C10.cb-admitted-while-open", "request %s was admitted (attempts=%d, result %q) although one record per client request has opened the breaker: recorded outcomes (true=failed) %v, window %d, minCalls %d, failureRate %d%%\n%s\nhistory: %s",
-					st.name, n, result, model.res, cb.Window, cb.MinCalls, cb.FailPct, describe(), history())
-			case !model.open && short:
-				r.Violate("C10.cb-shortcircuit-while-closed", "request %s was short-circuited although one record per client request leaves the breaker closed: recorded outcomes (true=failed) %v, window %d, minCalls %d, failureRate %d%%\n%s\nhistory: %s",
-					st.name, model.res, cb.Window, cb.MinCalls, cb.FailPct, describe(), history())
+				r.Violate("C10.cb-admitted-while-open", "request %s was admitted (attempts=%d, result %q) although one record per client request has opened the breaker: recorded outcomes {failed, earliest, latest instant of the record} %v, window %d (%s), minCalls %d, failureRate %d%%\n%s\nhistory: %s",
+					st.name, n, result, model.res, cb.Window, cb.Type, cb.MinCalls, cb.failPct(), describe(), history())
+			case !model.mayOpen && short:
+				r.Violate("C10.cb-shortcircuit-while-closed", "request %s was short-circuited although one record per client request leaves the breaker closed: recorded outcomes {failed, earliest, latest instant of the record} %v, window %d (%s), minCalls %d, failureRate %d%%\n%s\nhistory: %s",
+					st.name, model.res, cb.Window, cb.Type, cb.MinCalls, cb.failPct(), describe(), history())
 			}
 			if r.Violated() {
 				return
 			}
+			model.observe(short)
 			if !short {
-				model.record(result != "")
+				lo := st.callAt
+				if n > 0 {
+					lo = st.atts[n-1].end
+				}
+				model.record(result != "", lo, st.retAt)
 				for _, a := range st.atts {
-					shadow.record(a.failed)
+					shadow.record(a.failed, a.end, st.retAt)
+				}
+				if model.timeBased {
+					r.Probe("c10.cb.time_based.request_recorded")
+					if model.ambiguous {
+						r.Probe("c10.cb.time_based.verdict_ambiguous")
+					}
+					if model.evicted {
+						r.Probe("c10.cb.time_based.outcome_aged_out")
+					}
+					if model.open {
+						r.Probe("c10.cb.time_based.opened")
+					}
 				}
 				if n >= 2 {
 					r.Probe("c10.cb.retried_request_recorded")
@@ -818,7 +1087,7 @@ func c10Exec(r *sim.Run, sci interface{}) {
 						f++
 					}
 				}
-				needF := (cb.FailPct*cb.MinCalls + 99) / 100
+				needF := (cb.failPct()*cb.MinCalls + 99) / 100
 				if needF < 1 {
 					needF = 1
 				}
@@ -864,11 +1133,50 @@ func c10Exec(r *sim.Run, sci interface{}) {
 				return
 			}
 		}
+		// the body that belongs to the last attempt's answer: the complete one; of a stream
+		// response whose backend body ends early, any prefix of what the backend delivered
+		bodyOK := body == last.tag
+		if streamResp && last.kind == "resp" {
+			switch {
+			case last.cut:
+				bodyOK = strings.HasPrefix(last.sent, body)
+				sawStreamRespCut = true
+			case cancelledAtRead:
+				// the client's own cancellation may cut the stream
+				bodyOK = strings.HasPrefix(last.tag, body)
+			case ref.timeout > 0 && readAt >= last.lower+ref.timeout && !errors.Is(rerr, stdcontext.Canceled):
+				// the pool time-out has elapsed since the attempt may have begun (e.g. a back-off
+				// was waited after it): whether it still governs the stream is not stated
+				bodyOK = strings.HasPrefix(last.tag, body)
+				r.Probe("c10.streamresp.read_after_timeout_elapsed")
+			default:
+				bodyOK = body == last.tag && rerr == nil
+				if !bodyOK && hasResp && status == last.status && errors.Is(rerr, stdcontext.Canceled) {
+					want := map[bool]string{true: "failureCode", false: ""}[last.failed]
+					if result == want {
+						r.Violate("C10.spurious-cancel.stream-body", "request %s: last attempt (%d) answered status %d with a stream body of %d bytes; ServerPool.handle returned result %q status %d, the client did not cancel and no time passed since, yet reading the response stream fails after %d bytes with %q: the context of the backend call was cancelled by the pool itself\n%s\nhistory: %s",
+							st.name, n, last.status, len(last.tag), result, status, len(body), rerr, describe(), history())
+						return
+					}
+				}
+				if bodyOK {
+					sawStreamRespOK = true
+					if n >= 2 {
+						sawStreamRespRetried = true
+					}
+				}
+			}
+		}
 		// the client sees the outcome of the last attempt
 		switch {
+		case last.kind == "noserver":
+			// no backend call was possible: a failure (statement and documentation do not say which)
+			if result == "" || !hasResp || !(status >= 500 || (cancelledBeforeReturn && status >= 400)) {
+				r.Violate("C10.final-outcome", "request %s: last attempt (%d) found no server, client got result %q status %d (expected a failure result with a 5xx status)\n%s\nhistory: %s", st.name, n, result, status, describe(), history())
+			}
 		case last.kind == "resp" && !last.failed:
-			if result != "" || !hasResp || status != last.status || body != last.tag {
-				r.Violate("C10.final-outcome", "request %s: last attempt (%d) succeeded with status %d body %q, client got result %q status %d body %q\n%s\nhistory: %s", st.name, n, last.status, last.tag, result, status, body, describe(), history())
+			if result != "" || !hasResp || status != last.status || !bodyOK {
+				r.Violate("C10.final-outcome", "request %s: last attempt (%d) succeeded with status %d body %q, client got result %q status %d body %q (read error: %v)\n%s\nhistory: %s", st.name, n, last.status, last.tag, result, status, body, rerr, describe(), history())
 			}
 			if n >= 2 {
 				sawRetrySuccess = true
@@ -889,7 +1197,7 @@ func c10Exec(r *sim.Run, sci interface{}) {
 					st.name, n, last.status, len(last.sent), result, status, body, describe(), history())
 			}
 		case last.kind == "resp":
-			if result != "failureCode" || !hasResp || status != last.status || body != last.tag {
+			if result != "failureCode" || !hasResp || status != last.status || !bodyOK {
 				r.Violate("C10.final-outcome", "request %s: last attempt (%d) answered failure code %d body %q, client got result %q status %d body %q\n%s\nhistory: %s", st.name, n, last.status, last.tag, result, status, body, describe(), history())
 			}
 		case last.ctxErr == "deadline":
@@ -944,7 +1252,16 @@ func c10Exec(r *sim.Run, sci interface{}) {
 				if op.BodyLen > 0 {
 					bodyRd = strings.NewReader(strings.Repeat("b", op.BodyLen))
 				}
-				stdr, err := http.NewRequestWithContext(cctx, http.MethodPost, "http://gateway.example.com"+path, bodyRd)
+				method := op.Method
+				switch method {
+				case "":
+					method = http.MethodPost
+				case "POST", "PUT", "PATCH", "GET", "DELETE":
+				default:
+					cancel()
+					return
+				}
+				stdr, err := http.NewRequestWithContext(cctx, method, "http://gateway.example.com"+path, bodyRd)
 				if err != nil {
 					cancel()
 					return
@@ -970,7 +1287,7 @@ func c10Exec(r *sim.Run, sci interface{}) {
 				ctx := egctx.New(tracing.NoopSpan)
 				ctx.SetRequest(egctx.DefaultNamespace, req)
 
-				st := &c10Req{name: name, op: op}
+				st := &c10Req{name: name, op: op, method: method, wantBody: strings.Repeat("b", op.BodyLen)}
 				inflight[path] = st
 				all = append(all, st)
 				open++
@@ -1014,6 +1331,46 @@ func c10Exec(r *sim.Run, sci interface{}) {
 					}()
 					result = sp.handle(ctx, false)
 				}()
+				st.retAt = r.Now()
+				// a stream response is consumed as the HTTP server does it: copy the payload to the
+				// client right after the pipeline returned (no gate, no simulated time in between),
+				// then finish the context (which closes the response)
+				status, body, hasResp := 0, "", false
+				var rerr error
+				if pnc == nil {
+					if resp, ok := ctx.GetOutputResponse().(*httpprot.Response); ok && resp != nil {
+						hasResp = true
+						status = resp.StatusCode()
+						if !resp.IsStream() {
+							body = string(resp.RawPayload())
+						} else {
+							var b []byte
+							b, rerr = io.ReadAll(io.LimitReader(resp.GetPayload(), 1<<20))
+							body = string(b)
+						}
+					}
+				}
+				cancelledAtRead, readAt := st.cancelled, r.Now()
+				if streamResp && pnc == nil {
+					func() {
+						defer func() {
+							if p := recover(); p != nil {
+								pnc = p
+								stack = c10Stack()
+							}
+						}()
+						ctx.Finish()
+					}()
+					for i, a := range st.atts {
+						if a.sbody != nil && i < len(st.atts)-1 {
+							if a.sbody.closed {
+								r.Probe("c10.streamresp.abandoned_attempt_body_closed")
+							} else {
+								r.Probe("c10.streamresp.abandoned_attempt_body_left_open")
+							}
+						}
+					}
+				}
 				// gate: requests whose last back-off ends at the same instant return together
 				r.Yield("c10.returned")
 				st.done = true
@@ -1021,17 +1378,7 @@ func c10Exec(r *sim.Run, sci interface{}) {
 				st.retStamp = stamp()
 				open--
 				delete(inflight, path)
-				status, body, hasResp := 0, "", false
-				if pnc == nil {
-					if resp, ok := ctx.GetOutputResponse().(*httpprot.Response); ok && resp != nil {
-						hasResp = true
-						status = resp.StatusCode()
-						if !resp.IsStream() {
-							body = string(resp.RawPayload())
-						}
-					}
-				}
-				finish(st, result, status, body, hasResp, pnc, stack)
+				finish(st, result, status, body, rerr, cancelledAtRead, readAt, hasResp, pnc, stack)
 				cancel()
 			}
 		})
@@ -1055,13 +1402,21 @@ func c10Exec(r *sim.Run, sci interface{}) {
 	probe(sawCancelBackoff, "c10.cancel.during_backoff")
 	probe(sawCancelAttempt, "c10.cancel.during_attempt")
 	probe(sawExp3, "c10.retry.exponential_third_attempt")
+	probe(sawNoServer, "c10.attempt.no_server_available")
+	probe(sawRetriedBody, "c10.retry.request_body_sent_again")
+	probe(streamResp, "c10.streamresp.runs")
+	probe(streamResp && ref.timeout > 0, "c10.streamresp.with_pool_timeout")
+	probe(sawStreamRespOK, "c10.streamresp.complete_body_read")
+	probe(sawStreamRespRetried, "c10.streamresp.complete_body_after_retry")
+	probe(sawStreamRespCut, "c10.streamresp.backend_body_cut")
+	probe(sc.MaxBodyProxy && sc.MaxBody != 0, "c10.maxbody.configured_on_proxy")
 	probe(maxOpen >= 2, "c10.concurrent_requests")
 	probe(rt.On && ref.rf > 0, "c10.retry.randomized")
 	if sawRetrySuccess || sawExhausted || sawTimeout || sawShort || sawCancelBackoff || sawCancelAttempt {
 		r.Nontrivial()
 	}
 	var sig strings.Builder
-	fmt.Fprintf(&sig, "%d/%v/%d|%v|%v|", ref.maxAttempts, ref.exponential, rt.RFPct, sc.TimeoutUs > 0, cb)
+	fmt.Fprintf(&sig, "%d/%v/%d|%v|%v|%v|", ref.maxAttempts, ref.exponential, rt.RFPct, sc.TimeoutUs > 0, cb, streamResp)
 	for _, q := range all {
 		fmt.Fprintf(&sig, "%s:", q.name)
 		for _, a := range q.atts {
@@ -1124,6 +1479,79 @@ func (b *c10FailBody) Read(p []byte) (int, error) {
 
 func (b *c10FailBody) Close() error { b.closed = true; return nil }
 
+// c10StreamBody is the body of an answer in stream-response mode. As with net/http
+// ("the context controls the entire lifetime of a request and its response: ... reading the
+// response headers and body") its bytes can only be read while the context of the backend
+// request is alive. After data it ends (EOF), fails (connection reset) or blocks until the
+// context ends.
+type c10StreamBody struct {
+	r          *sim.Run
+	ctx        stdcontext.Context
+	data       string
+	pos        int
+	fail, hang bool
+	err        error
+	closed     bool
+}
+
+func (b *c10StreamBody) Read(p []byte) (int, error) {
+	if len(p) == 0 {
+		return 0, nil
+	}
+	if b.closed {
+		return 0, errors.New("c10 transport: read on closed response body")
+	}
+	if b.err != nil {
+		return 0, b.err
+	}
+	if e := b.ctx.Err(); e != nil {
+		b.err = e
+		return 0, e
+	}
+	if b.pos < len(b.data) {
+		n := copy(p, b.data[b.pos:])
+		b.pos += n
+		return n, nil
+	}
+	switch {
+	case b.hang && !b.r.Violated() && !b.r.Aborted():
+		tm := time.NewTimer(3 * time.Hour)
+		select {
+		case <-b.ctx.Done():
+		case <-tm.C:
+		}
+		tm.Stop()
+		b.r.Yield("c10.streambody")
+		b.err = c10ErrNet
+		if e := b.ctx.Err(); e != nil {
+			b.err = e
+		} else {
+			b.r.Probe("c10.streamresp.body_stall_outlived_3h")
+		}
+	case b.fail:
+		b.err = c10ErrNet
+	default:
+		b.err = io.EOF
+	}
+	return 0, b.err
+}
+
+func (b *c10StreamBody) Close() error { b.closed = true; return nil }
+
+// c10LB is the scripted load balancer.
+type c10LB struct {
+	choose func(req *httpprot.Request) *Server
+}
+
+func (l *c10LB) ChooseServer(req *httpprot.Request) *Server { return l.choose(req) }
+
+func c10Clip(s string, n int) string {
+	if len(s) > n {
+		return s[:n] + "..."
+	}
+	return s
+}
+
 func c10Stack() string {
 	buf := make([]byte, 8<<10)
 	n := runtime.Stack(buf, false)
@@ -1148,19 +1576,22 @@ func TestVerifC10(t *testing.T) {
 		New:      func() interface{} { return &c10Scenario{} },
 		Exec:     c10Exec,
 		MaxSteps: 30000,
-		Rule: "scenario = drawn retry policy (maxAttempts omitted/1-5, waitDuration omitted/1ms-2s, random/exponential, randomizationFactor 0-1) or none, pool timeout none/5ms-1s, failureCodes, optional COUNT_BASED breaker sized 1-8 (one record flips it), " +
-			"1-3 client tasks with 1-14 requests, each with a per-attempt backend script (status, failure code, network error, answer slower than the timeout, never answers), buffered or stream body and an optional client cancellation at a drawn instant; " +
+		Rule: "scenario = drawn retry policy (maxAttempts omitted/1-5, waitDuration omitted/1ms-2s, random/exponential, randomizationFactor 0-1) or none, pool timeout none/5ms-1s, failureCodes, serverMaxBodySize omitted/64/-1 (stream response) on the pool or on the Proxy, optional COUNT_BASED breaker sized 1-8 (one record flips it) or TIME_BASED breaker over 1-30 s against request gaps of 0-40 s, " +
+			"1-3 client tasks with 1-14 requests, each with a method, a per-attempt backend script (status, failure code, network error, no server available, answer slower than the timeout, never answers, body cut/stalled/over the limit), buffered or stream body and an optional client cancellation at a drawn instant; " +
 			"non-trivial = a retry succeeded after a failed attempt, all attempts failed, the pool timeout fired, a request was short-circuited, or a cancellation landed inside an attempt or a back-off; " +
 			"distinct = distinct (policy shape, per-request attempt outcomes, cancel position, result) signatures",
 		Real: []string{"pkg/filters/proxy ServerPool (NewServerPool, InjectResiliencePolicy, handle, doHandle, prepareRequest, buildResponse, buildFailureResponse, collectMetrics)",
 			"pkg/resilience (NewPolicy, RetryPolicy.CreateWrapper/Wrap, CircuitBreakerPolicy.CreateWrapper, circuitBreakerWrapper.Wrap)", "pkg/util/circuitbreaker", "pkg/context, pkg/protocols/httpprot request/response objects"},
-		Stub: []string{"transport: fnSendRequest replaced by a scripted backend honouring the request context", "clients and cancellers are harness tasks", "sync/atomic -> simatomic, sync.Mutex -> simsync, math/rand -> simrand (same semantics + gates / taped draws)"},
+		Stub: []string{"transport: fnSendRequest replaced by a scripted backend honouring the request context (stream-response bodies are readable only while that context is alive, as with net/http)",
+			"load balancer: the pool's balancer is replaced by a scripted one offering the pool's single server or, for an attempt scripted so, none", "clients and cancellers are harness tasks", "sync/atomic -> simatomic, sync.Mutex -> simsync, math/rand -> simrand (same semantics + gates / taped draws)"},
 		Assumptions: []string{
 			"back-off is bounded from below only: wait after the i-th failed attempt >= waitDuration*1.5^i(exponential)*(1-randomizationFactor) - 1us; an extra wait after the final failed attempt is accepted",
 			"a cancellation at or after the earliest possible end of a back-off does not forbid the next attempt; a cancel before the first attempt may or may not suppress it; after a client cancel only result clientError is required (status free)",
 			"pool timeout is checked per attempt: deadline <= transport entry + timeout, DeadlineExceeded not before earliest attempt start + timeout; answer and time-out at the same instant count as time-out",
 			"backOffPolicy only omitted/random/exponential, maxAttempts >= 1 or omitted (3), waitDuration omitted (500ms) or 1ms..2s, client cancellation is a context cancel, never a client deadline",
-			"breaker COUNT_BASED with 24h open wait and 24h slow-call threshold; exact prediction with one client task, bounds with several",
+			"breaker COUNT_BASED or TIME_BASED with 24h open wait and 24h slow-call threshold, optional fields omitted (documented defaults); exact prediction with one client task (TIME_BASED: an outcome N-1..N+1 s old may or may not count), bounds with several",
+			"stream response: the complete backend body must be readable right after handle returned unless the backend cut it, the client cancelled, or the pool time-out has elapsed since the last attempt's earliest start; a failing backend body is no attempt failure in stream mode",
+			"an attempt without available server is a failed attempt (counts, back-off follows, as last attempt: failure result + 5xx); every attempt must carry the client's method and body bytes",
 		},
 	})
 }
